@@ -1,7 +1,9 @@
 /-
-  Lemmas/CodecLemmas.lean — helper lemmas for C05 / C06: big-endian byte facts, digest
-  <-> bytes conversions, `ascAdj` versus `AscDigests`, list forms of the mutual codec
-  functions, the extra shape predicate `EncShape`, `legacyNorm`.
+  Lemmas/CodecLemmas.lean — helper lemmas for C05 / C06: digest <-> bytes conversions,
+  `ascAdj` versus `AscDigests`, unfolding forms of the mutual codec functions, the extra shape
+  predicate `EncShape` (and who establishes it), `Encodable`, the tree-level round trip
+  (`envOfCbor_cborOf_aux`), `legacyNorm` / `hasLegacyLeaf` / `legacyNormBytes`, decoder
+  soundness (`envOfCbor_sound`) and totality (`envOfCbor_no_panic_aux`), toy instances.
 -/
 import EnvVerif.Lemmas.Basic
 import EnvVerif.Lemmas.CodecLaws
@@ -10,11 +12,11 @@ open Env
 
 /-! ### digests and bytes -/
 
-theorem Digest.bytes_length (d : Digest) : d.bytes.length = 32 := beBytes_length 32 d.val
+theorem Digest.bytes_len32 (d : Digest) : d.bytes.length = 32 := beBytes_len 32 d.val
 
 theorem Digest.ofBytes_bytes {d : Digest} (hd : d.Valid) : Digest.ofBytes? d.bytes = some d := by
   unfold Digest.ofBytes?
-  rw [if_pos (Digest.bytes_length d)]
+  rw [if_pos (Digest.bytes_len32 d)]
   unfold Digest.bytes
   rw [beNat_beBytes]
   have : d.val % 256 ^ 32 = d.val := Nat.mod_eq_of_lt (by
@@ -810,7 +812,7 @@ def EncodableList : List Env → Prop
 end
 
 theorem digestCbor_valid (d : Digest) : (digestCbor d).Valid := by
-  simp only [digestCbor, Cbor.Valid, Digest.bytes_length, TAG_DIGEST]
+  simp only [digestCbor, Cbor.Valid, Digest.bytes_len32, TAG_DIGEST]
   omega
 
 mutual
@@ -840,7 +842,7 @@ theorem cborOf_valid : (e : Env) → Encodable e → EncShape e → (cborOf e).V
       List.length_cons, List.length_nil, and_self, and_true]
     simp
   | .elided d, _, _ => by
-    simp only [cborOf, Cbor.Valid, Digest.bytes_length]
+    simp only [cborOf, Cbor.Valid, Digest.bytes_len32]
     omega
   | .knownValue v d, he, _ => by
     simp only [Encodable] at he
@@ -979,7 +981,7 @@ def sample : Env := .node sWrapped [sAssert, sElided, sEnc, sComp] ⟨160⟩
 
 theorem sample_wf : WF toyH sample := by
   simp [sample, sWrapped, sLeaf, sAssert, sKV, sElided, sEnc, sComp, WF, WFList, toyH,
-    Hash.ofDigests, catDigests, Digest.bytes_length, Env.digest]
+    Hash.ofDigests, catDigests, Digest.bytes_len32, Env.digest]
   decide
 
 theorem sample_canon : Canon sample := by
